@@ -2,7 +2,10 @@
 (tracklib/algo/cinematics.py computeAbsCurv / estimate_speed, algo/analytics.py ds / speed,
 core/operators.py Integrator).
 
-Two kinds of cases:
+Three kinds of cases:
+* coordinate-class cases (`cls` present; generators and the independent geodesy in c17coords.py): one track whose positions
+  are ENUCoords / GeoCoords / ECEFCoords, an op word over {a, s, c, d, o}; model `Model/CinematicsCoords.lean` (driver
+  `C17.coords`);
 * single-track cases (`kind` enum / lattice-* / float* / pre-* / single): one fresh track, optional features present
   beforehand, an op word over {a = computeAbsCurv, s = estimate_speed}; model `Model/Cinematics.lean` (driver `C17.run`);
 * world histories (`hist` present; generators and the oracle's bookkeeping in c17world.py): observations shared between
@@ -59,19 +62,28 @@ class P(Prop):
         ("TracklibVerif.Props.C17", "TV.C17.ecef_refused", "ECEF tracks of n>=2 fixes: computeAbsCurv refused, estimate_speed / computeCurvAbsBetweenTwoPoints AttributeError; a ds / speed column of zeros stays on the track"),
         ("TracklibVerif.Props.C17", "TV.C17.abscurv_monotone_coords", "abs_curv never decreases for every class without exact arithmetic (0 <= sqrt x, a <= a+d for d >= 0), whatever the trigonometric functions return"),
         ("TracklibVerif.Props.C17", "TV.C17.geo_distance_horizontal", "over the reals (sin^2+cos^2=1, genuine sqrt): GeoCoords.distance2DTo is the d >= 0 with d^2 + U^2 = |ECEF chord|^2 (horizontal part of the chord in the local frame at `point`), 0 for a repeated position"),
+        ("TracklibVerif.Props.C17", "TV.C17.length_table", "the VALUE of Track.length() on a lawful table: only reads, returns the 3D legs sqrt(dx^2+dy^2+dz^2) of P[k+1]-P[k] accumulated in Python's order (any scalar type)"),
+        ("TracklibVerif.Props.C17", "TV.C17.duration_table", "the VALUE of Track.duration() on a lawful table of >= 1 fixes: only reads, returns ts[n-1] - ts[0] of the current stamps"),
+        ("TracklibVerif.Props.C17", "TV.C17.sorted_table", "the VALUE of Track.isSorted() on a lawful table: true exactly when no consecutive time difference is <= 0 (strictly increasing; a repeated stamp gives False)"),
     ]
     partial = []
     open_statements = ["IEEE rounding of sqrt / + / division is outside the theorems (ordered-field statement; the recurrences abscurv_prefix / abscurv_table / speed_table hold for any scalar type, so also for the Float operations in Python's order); sampled by the transfer check with rel. tolerance 1e-9",
                        "the laws are proved for the specification table and for the world of shared observations; for C01's dict-and-rows table `St` of a single track they follow from C01's simulation theorems and are not restated here",
-                       "Track.length (3D), isSorted, duration are modelled (lengthT, isSortedT, durationT) and covered by positions_and_stamps_unchanged; their VALUES are checked by correspondence (and length by the oracle on tracks of constant height), not by a theorem"]
-    modelled = ("algo/analytics.py ds, speed; core/obs_coords.py ENUCoords.distance2DTo/distanceTo/__sub__/norm2D/norm; core/operators.py Integrator.execute, "
+                       "world histories (shared observations, in-place edits) are generated for ENUCoords only; Geo / ECEF tracks are single-track cases (Model/CinematicsCoords.lean is a list model, not yet an instance of the table laws)",
+                       "geo_distance_horizontal is over the reals: the rounding of the geodetic -> ECEF -> local-frame chain (sin, cos, atan2, pow, sqrt of libm) is outside the theorems; the oracle bounds it by 1e-6 m against its own geodesy (measured < 1e-8 m)",
+                       "GeoCoords.toENUCoords is modelled for STANDARD_PROJ == 1 (the module constant of this tree) only"]
+    modelled = ("algo/analytics.py ds, speed; core/obs.py Obs.distance2DTo with __check_call_geom1 (ECEF refused); core/obs_coords.py ENUCoords.distance2DTo/distanceTo/__sub__/norm2D/norm, "
+                "GeoCoords.distance2DTo = toENUCoords(point).norm2D() (toECEFCoords, ECEFCoords.toENUCoords / toGeoCoords of C14's Model/Geo.lean), ECEFCoords (no distance2DTo: AttributeError); "
+                "core/track.py addAnalyticalFeature's exception path (column created before the loop, values written so far kept); core/operators.py Integrator.execute, "
                 "Differentiator.execute; core/utils.py addListToAF; algo/cinematics.py computeAbsCurv, estimate_speed, computeCurvAbsBetweenTwoPoints; "
                 "core/track.py addAnalyticalFeature (IndexError -> NaN), createAnalyticalFeature (append + index len(dico)), removeAnalyticalFeature, "
                 "get/setObsAnalyticalFeature, getAnalyticalFeature, __setitem__(name, list), estimate_speed, getAbsCurv/getSpeed, length, isSorted, duration, getT, "
                 "__add__, extract, __getitem__(slice), copy (deep copy with memo); core/obs_time.py toAbsTime / __sub__ from the CURRENT fields (C03's ObsTimeG.toAbsG); "
                 "two models: Model/Cinematics.lean (a track = lists + name->column map) and Model/CinematicsTab.lean (the programs on the Track API of C01's "
-                "Model/Features.lean, instantiated at the specification table and at a WORLD of observation objects shared between tracks)")
-    trusted = ["math.sqrt / x**2 are taken as correctly rounded sqrt and x*x",
+                "Model/Features.lean, instantiated at the specification table and at a WORLD of observation objects shared between tracks); "
+                "Model/CinematicsCoords.lean: the same programs on a track of one coordinate class (ENU / Geo / ECEF), with the dispatch of distance2DTo and the exceptions")
+    trusted = ["math.sqrt / x**2 are taken as correctly rounded sqrt and x*x (ENU path); on the Geo path x ** 2 is libm's pow(x, 2.0) and sin / cos / atan2 / sqrt are libm's, the same functions Lean's Float calls",
+               "coords stream: which exception CLASS a refusal raises is not compared (obs.py raises CoordTypeError without importing the name, so a NameError surfaces); NameError and CoordTypeError both count as the refusal",
                "single-track stream (`run`): ObsTime.toAbsTime() values are computed by the harness as sec + ms/1000.0; world stream: the model computes them from the timestamp fields (C03's toAbsG)"]
     rule = ("exhaustive: all tracks of 2..4 (quick) / 2..5 (thorough) fixes whose legs are k*(3,4), k in {-1,0,1,2}, with dt in {0,1,2} s, op word 'asas'; "
             "all histories of 2 (quick) / 3 (thorough) operations over {computeAbsCurv, estimate_speed on a track and on a section sharing its observations, "
@@ -83,8 +95,12 @@ class P(Prop):
             "computeCurvAbsBetweenTwoPoints, getAbsCurv / getSpeed / track[name], removeAnalyticalFeature, track[name] = list, isSorted / duration / getT), in-place edits of "
             "positions (setX / setObsAnalyticalFeature / attribute) and of timestamp fields (sec, min, ms), directed templates (sum of a computed and a fresh segment, section then "
             "parent, compute-edit-remove-recompute, time evaluation then field edit then speed, all orders, deep copy) plus free random histories; the oracle keeps its own "
-            "bookkeeping and checks every fresh (or still valid) computation against the CURRENT positions and stamps. non-trivial = at least 2 fixes, one non-zero leg"
-            " (world: and at least one computation)")
+            "bookkeeping and checks every fresh (or still valid) computation against the CURRENT positions and stamps; "
+            "COORDINATE CLASSES (c17coords.py): directed walks (Paris, date line, equator, pole, climb) as GeoCoords and as ECEFCoords, then random tracks of 1..8 fixes, 60 % GeoCoords "
+            "(steps 0 / 1e-8 .. 1 degree along a parallel, a meridian or oblique, heights -400..9000 m with jumps, longitudes wrapping at +-180, latitudes up to the poles), 20 % ENUCoords, 20 % ECEFCoords, "
+            "op words over {computeAbsCurv, estimate_speed, computeCurvAbsBetweenTwoPoints, addAnalyticalFeature(ds), Obs.distance2DTo of consecutive fixes}, features present beforehand; the oracle recomputes "
+            "the planimetric distance of Geo fixes with its own geodesy (tangent frame at either fix accepted, 1e-6 m allowance) and checks positions, their CLASS and the stamps after every case, refused or not. "
+            "non-trivial = at least 2 fixes, one non-zero leg (world: and at least one computation; coords: a class that defines a planimetric distance)")
 
     def setup(self):
         from tracklib.core.obs import Obs
